@@ -227,6 +227,36 @@ def run(tier, seed, rng):
                                     correspondence=CORRESPONDENCES[0], theorems=THEOREMS,
                                     oracle='symmetry, eigvalsh >= -tol, dtype, eval inertness; exact equality on the dyadic stream'))
     cov.extra['max_abs_error_general_stream'] = maxerr
+    from harness import simdist
+    from kfac.preconditioner import KFACPreconditioner
+    simdist.install()
+    for k, shape in enumerate([(5, 900, 6), (4099, 6), (3, 2731, 6)] if tier == 'quick' else [(5, 900, 6), (4099, 6), (3, 2731, 6), (8, 1024, 6), (8193, 6), (2, 4097, 6)]):
+        torch.manual_seed(seed + 9000 + k)
+        lin = torch.nn.Linear(6, 3)
+        model = torch.nn.Sequential(lin)
+        rec = {'a': [], 'g': []}
+        lin.register_forward_pre_hook(lambda m, inp: rec['a'].append(inp[0].detach().double().reshape(-1, 6)))
+        lin.register_full_backward_hook(lambda m, gi, go: rec['g'].append(go[0].detach().double().reshape(-1, 3)))
+        pk = KFACPreconditioner(model, factor_decay=0.5, kl_clip=None, damping=0.1)
+        A = torch.eye(7, dtype=torch.float64); G = torch.eye(3, dtype=torch.float64)
+        case = {'kind': 'many-rows', 'shape': list(shape), 'seed': seed + 9000 + k}
+        probs = []
+        for st in range(2):
+            model.zero_grad(); rec['a'].clear(); rec['g'].clear()
+            x = torch.randn(*shape) * (1.0 + torch.arange(shape[0]).reshape([-1] + [1] * (len(shape) - 1)) % 3)      # rows are NOT exchangeable
+            (model(x) * torch.randn(*shape[:-1], 3)).sum().backward()
+            pk.step()
+            a = torch.cat([rec['a'][0], torch.ones(rec['a'][0].shape[0], 1, dtype=torch.float64)], 1); g = rec['g'][0]
+            A = 0.5 * A + 0.5 * (a.t() @ a) / a.shape[0]; G = 0.5 * G + 0.5 * (g.t() @ g) / g.shape[0]
+            sd = pk.state_dict()['layers']['0']
+            for nme, got, want in (('A', sd['A'], A), ('G', sd['G'], G)):
+                err = float((got.double() - want).abs().max()) / max(float(want.abs().max()), 1e-30)
+                if err > 1e-4:
+                    probs.append(f'step {st} {nme}: factor differs from decay * previous + (1 - decay) * mean over all {a.shape[0]} rows (rel {err:.2e})')
+        cov.add(case, True, sample_cap=1); cov.count('stream', 'many-rows')
+        if probs:
+            failures.append(Failure(what='; '.join(probs[:3])[:500], case=case, impl=probs[:6], model='Factor.factor_update chain', oracle_rejects=True,
+                                    correspondence=CORRESPONDENCES[0], theorems=THEOREMS, oracle='float64 recurrence from the recorded layer inputs / output gradients'))
     return cov, failures
 
 
